@@ -212,15 +212,19 @@ def replay_sanitize(s):
     import py7zr
     from py7zr.exceptions import AbsolutePathError
 
+    # the independent definition, concretely
+    rest = s.lstrip("/")
+    if re.match("^[a-zA-Z]:", rest):
+        rest = rest[2:].lstrip("/")
+    want = None if (rest.startswith("/") or re.match("^[a-zA-Z]:", rest)) else rest
     z = py7zr.SevenZipFile(io.BytesIO(), "w")
     try:
         out = z._sanitize_archive_arcname(s)
     except AbsolutePathError:
-        return False, "raised AbsolutePathError"
+        return (want is not None), "%r refused with AbsolutePathError; the definition keeps %r" % (s, want)
     except Exception as e:  # noqa
         return True, "raised %r" % (e,)
-    bad = out.startswith("/") or re.match("^[a-zA-Z]:", out) is not None
-    return bad, "%r -> %r" % (s, out)
+    return out != want, "%r -> %r (definition: %r)" % (s, out, want)
 
 
 def units(tier):
